@@ -105,7 +105,17 @@ def plan(tier):
         if "prefix_exceptions" in rt[rid]["configuration"]:
             add(f, kind="derived", rule=rid, derive_mode="both")
             add(f, kind="derived", rule=rid, derive_mode="both_overlap")
-    for f, rid, s_ in (opt_jobs if len(opt_jobs) <= n_opt_rule else r.sample(opt_jobs, n_opt_rule)) + (gen_jobs if len(gen_jobs) <= n_opt_gen else r.sample(gen_jobs, n_opt_gen)):
+    # rules that are switched off by default only run when the configuration switches them on
+    off_jobs = []
+    for rid, row in sorted(rt.items()):
+        if row["disable"] and not row["deprecated"] and row["phase"]:
+            fx = [f for f in optharvest.fixtures_for(rid, rt) if f.endswith("test_input.vhd")]
+            for f in fx[:1]:
+                off_jobs.append((f, rid, {}))
+    n_off = len(off_jobs) if tier == "thorough" else 20
+    for f, rid, s_ in (opt_jobs if len(opt_jobs) <= n_opt_rule else r.sample(opt_jobs, n_opt_rule)) + (gen_jobs if len(gen_jobs) <= n_opt_gen else r.sample(gen_jobs, n_opt_gen)) + (off_jobs if len(off_jobs) <= n_off else r.sample(off_jobs, n_off)):
+        if rt[rid]["disable"]:
+            s_ = dict(s_, disable=False)
         add(f, kind="option", rule=rid, options=s_)
     # documented indentation configurations on the style examples (library / use clauses, port clauses)
     icfgs = optharvest.indent_configs(vlib.REPO)
@@ -120,7 +130,7 @@ def plan(tier):
         for g in ({"indent_style": "smart_tabs", "indent_size": 2}, {"indent_size": 4}):
             add(f, kind="option", rule="global", options=g)
     for f in var_files:
-        for vk in ("comment0", "dedent", "squeeze", "dedent_squeeze", "case", "pragma0"):
+        for vk in ("comment0", "dedent", "squeeze", "dedent_squeeze", "case", "pragma0", "compoff0"):
             add(f, kind="variant", variant=vk)
     # minimised corpus of inputs that failed before runs first (kept under /verif/corpus_min)
     cm = os.path.join(vlib.VERIF, "corpus_min")
@@ -130,7 +140,10 @@ def plan(tier):
                 side = os.path.join(cm, f[:-4] + ".yaml")  # the configuration the input needs to show what it was kept for
                 jobs.insert(0, dict(path=os.path.join(cm, f), argv=["-c", side] if os.path.exists(side) else [], kind="corpus"))
     if os.environ.get("VERIF_ONLY_KIND"):  # maintainer use: one family of runs only (part of the cache key through the seed string)
-        jobs = [j for j in jobs if j["kind"] in os.environ["VERIF_ONLY_KIND"].split(",")]
+        if os.environ["VERIF_ONLY_KIND"] == "enabling":
+            jobs = [j for j in jobs if j["kind"] == "option" and j["options"].get("disable") is False]
+        else:
+            jobs = [j for j in jobs if j["kind"] in os.environ["VERIF_ONLY_KIND"].split(",")]
     return jobs
 
 
@@ -184,6 +197,26 @@ def make_variant(lines, kind, r):
                     res.append("-- pragma keep%d" % (n % 7))
                 elif k < 0.35:
                     res.append("      -- synthesis attr%d" % (n % 5))
+            res.append(line)
+        return res
+    if kind == "compoff0":
+        # small --vhdl_comp_off ... --vhdl_comp_on regions between lines, some followed by a blank line
+        res, skip, off = [], False, False
+        for n, line in enumerate(lines):
+            if "vhdl_comp_off" in line:
+                off = True
+            opens, closes = line.count("/*"), line.count("*/")
+            plain = not skip and not off and opens == 0 and closes == 0 and not line.lstrip().startswith("#") and "vsg_" not in line and "synthesis" not in line and "pragma" not in line
+            if opens > closes:
+                skip = True
+            elif closes > opens:
+                skip = False
+            if off and "vhdl_comp_on" in line:
+                off = False
+            if plain and not skip and line.strip() and r.random() < 0.15:
+                res += ["--vhdl_comp_off", "  ; dbg%d : out not_vhdl (" % n, "--vhdl_comp_on"]
+                if r.random() < 0.5:
+                    res.append("")
             res.append(line)
         return res
     if kind == "case":
